@@ -152,5 +152,8 @@ pub fn handle(rest: &[Sx]) -> Sx {
             None => tag("panic", vec![]),
         };
     }
+    if op == "wire" {
+        return crate::gen_shapes::wire_shape(id, &rest[2..]);
+    }
     crate::gen_shapes::run_shape(id, op, &rest[2..])
 }
